@@ -15,6 +15,7 @@ mod guard;
 mod rng;
 mod types;
 mod val;
+mod vidx;
 
 use rng::Rng;
 use std::collections::BTreeMap;
